@@ -165,8 +165,8 @@ CHECKS['C14'] = dict(
     tus=_c14_tus,
     runs=dict(
         quick=[dict(tu='c14_api', group='api', shards=1),
-               dict(tu='c14_views_c', group='views', bounds=dict(S=3, depth=2, SS=2, subfull=0), shards=3),
-               dict(tu='c14_views_m', group='views', bounds=dict(S=3, depth=2, SS=2, subfull=0), shards=3),
+               dict(tu='c14_views_c', group='views', bounds=dict(S=3, depth=3, SS=2, subfull=0), shards=4),
+               dict(tu='c14_views_m', group='views', bounds=dict(S=3, depth=3, SS=2, subfull=0), shards=4),
                dict(tu='c14_image', group='image', bounds=dict(S=3), shards=5),
                dict(tu='c14_copy', group='copy', shards=2),
                dict(tu='c14_copy', group='equal', shards=2),
